@@ -11,6 +11,7 @@ import (
 	"verif/explore"
 	"verif/harness/reg"
 
+	_ "verif/harness/c03"
 	_ "verif/harness/c05"
 	_ "verif/harness/c20"
 	_ "verif/harness/reactiveh"
